@@ -227,12 +227,13 @@ def save_replay(prop, idx, desc, driver, trace_file, run_index, hits, extra=None
     return d
 
 
-def run_apalache(spec_rel, inv, expect_ok=True, timeout=600):
-    """Discharge (or, for a negative control, refute) an invariant with Apalache at length 0 (Init => Inv over unbounded integers)."""
-    outdir = os.path.join(CACHE, "apalache")
+def run_apalache(spec_rel, inv, expect_ok=True, timeout=600, init=None, length=0):
+    """Discharge (or, for a negative control, refute) an invariant with Apalache: at length 0 (Init => Inv over unbounded integers), or,
+    with init=<predicate describing an arbitrary state that satisfies the invariant> and length=1, the inductive step Inv /\ Next => Inv'."""
+    outdir = os.path.join(WORK, "apalache_%s_%s" % (inv, init or "Init"))
     t0 = time.time()
     try:
-        p = subprocess.run(["apalache-mc", "check", "--length=0", "--inv=" + inv, "--out-dir=" + outdir, os.path.basename(spec_rel)],
+        p = subprocess.run(["apalache-mc", "check", "--length=%d" % length, "--inv=" + inv] + (["--init=" + init] if init else []) + ["--out-dir=" + outdir, os.path.basename(spec_rel)],
                            cwd=os.path.join(SPEC, os.path.dirname(spec_rel)), stdout=subprocess.PIPE, stderr=subprocess.STDOUT, universal_newlines=True, timeout=timeout)
         txt = p.stdout
     except subprocess.TimeoutExpired:
@@ -240,4 +241,4 @@ def run_apalache(spec_rel, inv, expect_ok=True, timeout=600):
     shutil.rmtree(outdir, ignore_errors=True)
     ok = "The outcome is: NoError" in txt
     refuted = "The outcome is: Error" in txt
-    return dict(spec=spec_rel, inv=inv, proved=ok, refuted=refuted, as_expected=(ok if expect_ok else refuted), wall=time.time() - t0, tail=txt[-1200:])
+    return dict(spec=spec_rel, inv=inv, init=init or "Init", length=length, proved=ok, refuted=refuted, as_expected=(ok if expect_ok else refuted), wall=time.time() - t0, tail=txt[-1200:])
